@@ -287,6 +287,9 @@ func runKernel(ld *Loaded, k *Kernel, tier string, workers int, solverKind strin
 	res.Incomplete = ex.incomplete
 	res.Queries = ex.queries
 	res.SolverS = ex.solverDur.Seconds()
+	if ex.stats.Unknowns > 0 {
+		res.Incomplete[fmt.Sprintf("solver answered unknown/timeout on %d queries", ex.stats.Unknowns)] = 1
+	}
 	if ex.solverErrs > 0 {
 		res.Incomplete[fmt.Sprintf("solver reported %d errors", ex.solverErrs)] = 1
 	}
